@@ -18,14 +18,17 @@ from ..mon import trace
 RULE = ("token-level mutations (delete, duplicate, swap, truncate, splice, shape swaps) of corpus and generated Mapfiles, token soups over "
         "the Mapfile vocabulary, unterminated strings/regexes/comments/brackets, every block type alone at the root, and long "
         "repetitive inputs (operator chains / nesting <= 100); outcome class and logical steps / CPU per input judged against "
-        "envelopes calibrated on the corpus in the same run; distinct = distinct input text")
+        "envelopes calibrated on the corpus in the same run; every sixth input is parsed again with the library's logger at DEBUG / INFO and "
+        "a formatting handler attached (same outcome class required); distinct = distinct input text")
 EVAL_KEY = "inputs_judged"
 DISTINCT_KEY = "inputs"
 NSHARDS = {"quick": 8, "thorough": 16}
 FLOORS = {"quick": {"inputs_judged": 60000, "outcome:accepted": 5000, "outcome:rejected": 30000, "step_envelope_checks": 60000,
-                    "root_block_types_accepted": 19, "long_inputs": 10, "stress_inputs_judged": 400, "syntax_error_positions_checked": 150},
+                    "root_block_types_accepted": 19, "long_inputs": 10, "stress_inputs_judged": 400, "syntax_error_positions_checked": 150,
+                    "rejected_reruns_with_verbose_logging": 5000},
           "thorough": {"inputs_judged": 800000, "outcome:accepted": 50000, "outcome:rejected": 400000, "step_envelope_checks": 800000,
-                       "root_block_types_accepted": 19, "long_inputs": 40, "stress_inputs_judged": 400, "syntax_error_positions_checked": 3000}}
+                       "root_block_types_accepted": 19, "long_inputs": 40, "stress_inputs_judged": 400, "syntax_error_positions_checked": 3000,
+                       "rejected_reruns_with_verbose_logging": 60000}}
 ASSUMPTIONS = ["the step envelope is A*chars+B with A = 8 x the largest steps/char seen on the corpus in this run (floor 256), B = max(5000, 4 x the largest step count of 20 tiny rejected inputs); "
                "the CPU envelope is C*chars+D with C = 50 x the corpus median per-char cost, D = 50 ms, confirmed by 3 isolated repetitions",
                "bulk inputs go through reused Parser/MapfileToDict objects (same code path as loads); a sample goes through mappyfile.loads"]
@@ -51,6 +54,17 @@ def h(s):
     return hashlib.sha1(s.encode("utf-8", "surrogatepass")).hexdigest()[:12]
 
 
+class _Sink(__import__("logging").Handler):
+    """Formats every record it is given, as a console or file handler would."""
+    def __init__(self):
+        super().__init__(0)
+        self.records = 0
+
+    def emit(self, record):
+        self.records += 1
+        record.getMessage()
+
+
 class Judge:
     def __init__(self, ctx):
         import lark
@@ -73,6 +87,31 @@ class Judge:
         self.ratios = []
         self.cpu_ratios = []
         self.n = 0
+        self.sink = _Sink()
+
+    def relogged(self, text, case, out):
+        """The same input with the library's logger at DEBUG / INFO and a handler that formats every record (what -vv or an
+        application's logging.basicConfig(level=DEBUG) does): the outcome class is the same."""
+        import logging
+
+        lg = logging.getLogger("mappyfile")
+        old = lg.level
+        level = logging.DEBUG if (self.n // 6) % 3 else logging.INFO
+        lg.addHandler(self.sink)
+        lg.setLevel(level)
+        try:
+            out2 = self.run_once(text)[0]
+        finally:
+            lg.setLevel(old)
+            lg.removeHandler(self.sink)
+        a = "ok" if out[0] == "ok" else type(out[1]).__name__
+        b = "ok" if out2[0] == "ok" else type(out2[1]).__name__
+        self.res.count("reruns_with_verbose_logging")
+        if b != "ok":
+            self.res.count("rejected_reruns_with_verbose_logging")
+        if a != b:
+            self.res.violation("outcome-depends-on-logging-level", dict(case, level=logging.getLevelName(level)),
+                               b + ": " + str(out2[1])[:200], a)
 
     def run_once(self, text):
         s0 = self.steps.n
@@ -157,6 +196,8 @@ class Judge:
                 import traceback
                 tb = "".join(traceback.format_exception(type(ex), ex, ex.__traceback__)[-3:])[-600:]
                 res.violation("non-lark-exception-escapes:" + name, case, f"{name}: {str(ex)[:200]}", "dict | list | LarkError", where=tb)
+        if steps is not None and self.n % 6 == 0 and len(text) < 30000:
+            self.relogged(text, case, out)
         if steps is not None:
             res.count("step_envelope_checks")
             n = max(len(text), 1)
